@@ -22,7 +22,7 @@ type vFrameRec struct {
 	seq    [vMaxFrames]int // order fingerprint of the marked rows of the frame (see vMarkText)
 	closed bool            // set by the harness when Wait has returned
 	late   int             // writes after Wait returned
-	fail   int             // fail the k-th write (1-based), 0 = never
+	fail   int             // fail the k-th write (1-based), 0 = never, < 0 = every write
 	tick   chan struct{}   // when set: one token per write (never blocks), see vEnv.cycle
 }
 
@@ -44,7 +44,7 @@ func (r *vFrameRec) Write(p []byte) (int, error) {
 		default:
 		}
 	}
-	if r.fail == r.n {
+	if r.fail == r.n || r.fail < 0 {
 		return 0, vErrIO
 	}
 	return len(p), nil
